@@ -22,7 +22,10 @@ type C13Case struct {
 	// ChildrenOnly (with UseNext): the block's transactions are only used as
 	// unconfirmed parents; the set handed over holds just the children built on
 	// top of them (a renter transaction rebased alone, a relayed child)
-	ChildrenOnly bool         `json:"children_only,omitempty"`
+	ChildrenOnly bool `json:"children_only,omitempty"`
+	// DropChildren (with UseNext): transactions of the block that spend outputs
+	// of earlier transactions of the same block are left out of the set
+	DropChildren bool         `json:"drop_children,omitempty"`
 	Extra        []kit.Intent `json:"extra,omitempty"` // further transactions built on top
 	// Corrupt: 0 none, 1 flip a proof hash, 2 change a leaf index, 3 unknown basis id, 4..9 basis naming a known block at a height it does not have (+3, +1, -1, the target's height, 0, MaxUint64)
 	Corrupt int `json:"corrupt,omitempty"`
@@ -71,6 +74,23 @@ func genC13(t *rapid.T) C13Case {
 		}
 		if len(c.Extra) > 0 {
 			c.Extra[0].To = c.Extra[0].Who
+		}
+	}
+	if c.UseNext && kit.Chance(t, 35, "dropchildren") {
+		c.DropChildren = true
+		// more blocks whose later transactions spend outputs of their earlier ones
+		for b := range c.Tree.Blocks {
+			for j := 1; j < len(c.Tree.Blocks[b].Txs); j++ {
+				if kit.Chance(t, 60, "blockeph") {
+					c.Tree.Blocks[b].Txs[j].Eph = true
+					c.Tree.Blocks[b].Txs[j].Who = c.Tree.Blocks[b].Txs[j-1].To
+				}
+			}
+		}
+		for i := range c.Extra {
+			if kit.Chance(t, 70, "dropeph") {
+				c.Extra[i].Eph = true
+			}
 		}
 	}
 	return c
@@ -156,7 +176,31 @@ func runC13(c C13Case, cs *kit.CaseStats) (err error) {
 	if c.UseNext {
 		for _, n := range tr.Nodes {
 			if n.Parent == from && n.Ledger != nil && len(n.Block.V2Transactions()) > 0 {
+				var keptTxns []types.V2Transaction
 				for i, t := range n.Block.V2Transactions() {
+					if c.DropChildren {
+						// leave out the block's own children of its transactions:
+						// the set's members then compete with them for the
+						// parents' outputs, which the block creates and spends
+						child := false
+						for k := range t.SiacoinInputs {
+							child = child || t.SiacoinInputs[k].Parent.StateElement.LeafIndex == types.UnassignedLeafIndex
+						}
+						for k := range t.SiafundInputs {
+							child = child || t.SiafundInputs[k].Parent.StateElement.LeafIndex == types.UnassignedLeafIndex
+						}
+						for k := range t.FileContractRevisions {
+							child = child || t.FileContractRevisions[k].Parent.StateElement.LeafIndex == types.UnassignedLeafIndex
+						}
+						for k := range t.FileContractResolutions {
+							child = child || t.FileContractResolutions[k].Parent.StateElement.LeafIndex == types.UnassignedLeafIndex
+						}
+						if child {
+							cs.Class("block-children-left-out-of-the-set")
+							continue
+						}
+					}
+					keptTxns = append(keptTxns, t)
 					set = append(set, t.DeepCopy())
 					k := "block"
 					if len(n.Block.Transactions) == 0 && i < len(n.Kinds) {
@@ -164,7 +208,7 @@ func runC13(c C13Case, cs *kit.CaseStats) (err error) {
 					}
 					kinds = append(kinds, k)
 				}
-				bb.Absorb(n.Block.Transactions, n.Block.V2Transactions())
+				bb.Absorb(n.Block.Transactions, keptTxns)
 				cs.Class("set-starts-with-a-block's-transactions")
 				break
 			}
@@ -444,6 +488,9 @@ func runC13(c C13Case, cs *kit.CaseStats) (err error) {
 				}
 				want = sp
 				spentAtTarget = true
+				if origSE[pos].LeafIndex == types.UnassignedLeafIndex {
+					cs.Class("ephemeral-input-confirmed-and-spent-by-another-transaction-on-path")
+				}
 			}
 			if origSE[pos].LeafIndex == types.UnassignedLeafIndex {
 				ephConfirmed = true
